@@ -278,9 +278,30 @@ impl Prop for P {
                         .map_err(|e| Fail::new("point-eval-error", format!("{e:?}")))?;
                 }
             }
+            // the point evaluator's own output / choice arrays bounded by
+            // guard pages
+            let gout: Result<Vec<f32>, Fail> =
+                crate::galloc::with_guard(pi % 2 == 0, || {
+                    let mut pe2 = JitFunction::new_point_eval();
+                    let (o, _) = pe2
+                        .eval(&tape_p, &input)
+                        .map_err(|e| Fail::new("point-eval-error", format!("{e:?}")))?;
+                    Ok(o.to_vec())
+                });
+            let gout = gout?;
             let (out, _) = pe
                 .eval(&tape_p, &input)
                 .map_err(|e| Fail::new("point-eval-error", format!("{e:?}")))?;
+            for k in 0..out.len().min(gout.len()) {
+                if !same(out[k], gout[k]) {
+                    fail!(
+                        "guarded-evaluator-changes-result",
+                        "point output {k} is {} from a fresh evaluator with guard-page arrays, {} from the long-lived one",
+                        fl_to_string(gout[k]),
+                        fl_to_string(out[k])
+                    );
+                }
+            }
             ensure!(
                 out.len() == roots.len(),
                 "point-output-len",
@@ -388,6 +409,36 @@ impl Prop for P {
                     }
                 }
             }
+            // ... and with the evaluator's OWN arrays (outputs, pointer tables,
+            // short-batch scratch lanes) allocated flush against PROT_NONE
+            // pages: a fresh evaluator is created and used inside a
+            // guard-page allocation section (galloc.rs)
+            if len % 2 == 1 || len < 9 || len == n {
+                for at_end in [true, false] {
+                    let o3: Result<Vec<Vec<f32>>, Fail> =
+                        crate::galloc::with_guard(at_end, || {
+                            let mut se2 = JitFunction::new_float_slice_eval();
+                            let o = se2.eval(&tape_s, &cols).map_err(|e| {
+                                Fail::new("slice-eval-error", format!("{e:?}"))
+                            })?;
+                            Ok((0..roots.len()).map(|k| o[k].to_vec()).collect())
+                        });
+                    let o3 = o3?;
+                    cx.ev.count("guard_page_evaluator_evaluations");
+                    for k in 0..roots.len() {
+                        for i in 0..len.min(o3[k].len()) {
+                            if !same(o3[k][i], outv[k][i]) {
+                                fail!(
+                                    "guarded-evaluator-changes-result",
+                                    "len {len}: output {k} sample {i} is {} from a fresh evaluator with guard-page arrays, {} from the long-lived one",
+                                    fl_to_string(o3[k][i]),
+                                    fl_to_string(outv[k][i])
+                                );
+                            }
+                        }
+                    }
+                }
+            }
             let vout = vse.eval(&vtape_s, &cols).unwrap();
             for i in 0..len {
                 if all_nodes {
@@ -460,7 +511,9 @@ impl Prop for P {
          the same tape unless a reference-tainted node (min/max tie of opposite zeros, hash of a NaN) is upstream; (3) \
          exactly output_count arrays of exactly n samples; (4) every slice evaluation is repeated with each input slice \
          mapped flush against a PROT_NONE page, at its end and at its start (an access outside the caller's slices kills the \
-         worker, which the parent reports with the case). Non-trivial = (tape has more than 12 slots, or a libm call with \
+         worker, which the parent reports with the case), and once more with a fresh evaluator whose own output arrays, pointer \
+         tables and short-batch scratch lanes are allocated flush against PROT_NONE pages (guard-page allocator); \
+         Non-trivial = (tape has more than 12 slots, or a libm call with \
          other live slots) and a slice length that is not a multiple of 8."
     }
 
@@ -468,7 +521,7 @@ impl Prop for P {
         vec![
             "x86_64 only (the aarch64 assembler in the anchors is not exercised on this host)",
             "host libm is the same function for generated code and interpreter",
-            "bounds clause: every slice evaluation is repeated with the input slices placed flush against PROT_NONE pages (end-flush and start-flush); outputs are evaluator-owned vectors",
+            "bounds clause: every slice evaluation is repeated with the input slices placed flush against PROT_NONE pages (end-flush and start-flush), and with a fresh evaluator whose own heap arrays (outputs, choices, pointer tables, scratch) are flush against PROT_NONE pages; the native stack frame is not instrumented",
         ]
     }
 }
